@@ -144,6 +144,7 @@ pub fn base_swarm(r: &mut Rng) -> GenCfg {
         barrier_only_cb: 1,
         settle_after_adoption: false,
         bare_bias: [0, 2, 4][r.below(3)],
+        static_bias: 0,
     }
 }
 
@@ -335,6 +336,15 @@ pub fn swarm(prop: &str, seed: u64) -> (GenCfg, Suffix, Shape) {
             c.max_objs = c.max_objs.min(16);
         }
         _ => {}
+    }
+    // arenas whose root type holds no pointers (drawn late, like the seam mode below)
+    let sshare = match prop {
+        "C08" => 4,
+        "C03" | "C09" | "C10" | "C02" | "C04" | "C18" | "C11" | "C20" => 12,
+        _ => 0,
+    };
+    if sshare > 0 && r.chance(1, sshare) {
+        c.static_bias = if c.arenas > 1 { 6 } else { 16 };
     }
     // behaviour of the memory seam (a fault kind of its own): released addresses handed out
     // again at once. Drawn last so that the rest of the configuration does not depend on it.
